@@ -163,8 +163,11 @@ func c11Gen(t *rapid.T) c11Case {
 			op.M = rapid.SampledFrom([]string{"serve", "serve", "serve", "revoke", "entry"}).Draw(t, "outer")
 			op.A = rapid.SampledFrom([]string{"revoke", "revoke", "revoke", "serve", "entry", "issue"}).Draw(t, "inner")
 			op.N = rapid.SampledFrom([]int{0, 1, 1, 1, 2, 2}).Draw(t, "age") // 0: list not due for renewal, 1: in its renewal window, 2: expired
-		case "revoke", "verifyA":
+		case "revoke":
 			op.C = rapid.Uint32().Draw(t, "c")
+		case "verifyA":
+			op.C = rapid.Uint32().Draw(t, "c")
+			op.N = rapid.IntRange(0, 3).Draw(t, "refTime") // validAt: 0 nil, 1 now, 2 the credential's issuance, 3 a year ahead
 		case "verifyB":
 			op.C = rapid.Uint32().Draw(t, "c")
 			op.M = rapid.SampledFrom(c11NetModes).Draw(t, "m")
@@ -948,7 +951,22 @@ func (r *c11Run) opVerifyA(op c11Op) bool {
 		r.x.Class("verifyA:skipped-external")
 		return false
 	}
-	err := r.f.verA.Verify(c.vc, true, true, nil)
+	// the status-list check itself takes no reference time (Verify does not pass validAt on to it): a set bit means
+	// revoked for every reference time at which the credential is valid
+	var at *time.Time
+	switch op.N % 4 {
+	case 1:
+		t := time.Now()
+		at = &t
+	case 2:
+		t := c.vc.IssuanceDate
+		at = &t
+	case 3:
+		t := time.Now().Add(365 * 24 * time.Hour)
+		at = &t
+	}
+	r.x.Classf("verifyA:ref=%d", op.N%4)
+	err := r.f.verA.Verify(c.vc, true, true, at)
 	want := false
 	if c.hasStatus {
 		if l := r.lists[c.url]; l != nil {
